@@ -40,6 +40,10 @@ def call_split(obj, case, depth_kw):
     if op == "uniform":
         return obj.splitUniform(case["step"], **kw)
     if op == "nonuniform":
+        if case.get("splits_fiber"):
+            # the boundaries given as a fiber (its coordinates are the boundaries, whatever it stores: explicit zeros included)
+            sp = Fiber(list(case["splits"]), [(k % 2) for k in range(len(case["splits"]))])
+            return obj.splitNonUniform(sp, **kw)
         return obj.splitNonUniform(list(case["splits"]), **kw)
     if op == "equal":
         return obj.splitEqual(case["step"], **kw)
@@ -62,7 +66,7 @@ def execute(case):
         depth, sdepth, shape = case.get("depth", 1), case.get("sdepth", 0), case.get("shape", 8)
         if case["kind"] == "fiber":
             tree = case["tree"]
-            f = proj.build_fiber(tree, shape=[shape] * depth)
+            f = proj.build_fiber(tree, default=case.get("dflt", 0), shape=[shape] * depth)
             if case.get("hasact"):
                 f.setActive(tuple(case["act"]))
             src_root = f
